@@ -567,6 +567,15 @@ impl LocalDestination {
         Ok(())
     }
 
+    /// Check if the given item (relative to the base path) exists (without following symlinks)
+    ///
+    /// # Arguments
+    ///
+    /// * `item` - The item to check
+    pub(crate) fn exists(&self, item: impl AsRef<Path>) -> bool {
+        fs::symlink_metadata(self.path(item)).is_ok()
+    }
+
     /// Set length of `item` (relative to the base path)
     ///
     /// # Arguments
